@@ -184,7 +184,7 @@ fn recovery(wk: &Worker, cb: &str, reference: &BTreeMap<String, Vec<u8>>, acc: &
 
 #[derive(Clone, Debug)]
 enum Case {
-    Input { cb: &'static str, height: u64, fault: String },
+    Input { cb: &'static str, height: u64, fault: String, range: (Option<u64>, Option<u64>) },
     Output { cb: &'static str, large: bool, plan: String, kind: &'static str },
     Crash { cb: &'static str, large: bool, k: usize },
     Fsize { cb: &'static str, limit: u64 },
@@ -248,14 +248,21 @@ pub fn run() -> Report {
         for h in 0..6u64 {
             let flen = small.files[&h].len;
             for f in ["removed", "emptied", "offset-past-eof", "offset-in-last-3-bytes"] {
-                cases.push(Case::Input { cb, height: h, fault: f.into() });
-            }
-            for cut in 0..flen {
-                let dense = thorough || cb == "csvdump" && h == 2;
-                if dense || cut % 7 == 0 || cut < 16 || cut + 16 >= flen {
-                    cases.push(Case::Input { cb, height: h, fault: format!("truncated@{}", cut) });
+                cases.push(Case::Input { cb, height: h, fault: f.into(), range: (None, None) });
+                // the same fault with the block being the first / an inner / the last block of a requested range
+                for (rs, re) in [(Some(2u64), None), (None, Some(3u64)), (Some(1), Some(4))] {
+                    if h >= rs.unwrap_or(0) && h <= re.unwrap_or(5) {
+                        cases.push(Case::Input { cb, height: h, fault: f.into(), range: (rs, re) });
+                    }
                 }
             }
+            for cut in 0..flen {
+                cases.push(Case::Input { cb, height: h, fault: format!("truncated@{}", cut), range: (None, None) });
+                if cut == flen / 2 {
+                    cases.push(Case::Input { cb, height: h, fault: format!("truncated@{}", cut), range: (Some(h.min(4)), None) });
+                }
+            }
+            let _ = thorough;
         }
     }
     // 2. output faults: bound 1 complete; bound 2 on the small world
@@ -303,7 +310,7 @@ pub fn run() -> Report {
             l += step;
         }
     }
-    rep.rule = "three enumerations on the real binary for csvdump / unspentcsvdump / balances: (1) input faults: every height x {blk file removed, emptied, truncated at (every 7th / every) byte, index offset past EOF, offset into the last 3 bytes}; (2) output faults with deviation bound 1 (complete): at EVERY intercepted open/write/rename/close call on the dump folder every answer of {ENOSPC, EIO, 1-byte short write then ENOSPC, n-1 short write, EINTR}, bound 2 (benign deviation followed by an error or a crash) on the small world, plus a byte-granular RLIMIT_FSIZE sweep; (3) crash points: process killed (_exit) immediately before EVERY intercepted call and after the last one; every failed or killed run on the small world is followed by an undisturbed shorter run (-e 2) in the same folder, which must be complete and identical to a fresh-folder run; small world (all writes at completion) and large world (4 MB buffers overflow mid-run); non-trivial = distinct fault / crash case".into();
+    rep.rule = "three enumerations on the real binary for csvdump / unspentcsvdump / balances: (1) input faults: every height x {blk file removed, emptied, truncated at EVERY byte, index offset past EOF, offset into the last 3 bytes}, also with the faulted block first / inner / last of a --start/--end range; (2) output faults with deviation bound 1 (complete): at EVERY intercepted open/write/rename/close call on the dump folder every answer of {ENOSPC, EIO, 1-byte short write then ENOSPC, n-1 short write, EINTR}, bound 2 (benign deviation followed by an error or a crash) on the small world, plus a byte-granular RLIMIT_FSIZE sweep; (3) crash points: process killed (_exit) immediately before EVERY intercepted call and after the last one; every failed or killed run on the small world is followed by an undisturbed shorter run (-e 2) in the same folder, which must be complete and identical to a fresh-folder run; small world (all writes at completion) and large world (4 MB buffers overflow mid-run); non-trivial = distinct fault / crash case".into();
     rep.bound = json!({"cases": cases.len(), "intercepted_calls": calls.iter().map(|((cb, l), v)| (format!("{}{}", cb, if *l { "/large" } else { "/small" }), json!(v.len()))).collect::<serde_json::Map<_, _>>(), "deviation_bound": "1 complete, 2 on the small world (benign then error/crash)"});
     rep.not_covered = vec!["power-loss durability (fsync ordering) is not claimed by the property".into(), "SIGKILL at instants between two syscalls is equivalent to the crash point before the later syscall (the directory cannot change in between)".into()];
     let parts = par_fold(
@@ -315,7 +322,7 @@ pub fn run() -> Report {
             acc.transitions += 1;
             acc.nontrivial.insert(h8(format!("{:?}", c).as_bytes()));
             match c {
-                Case::Input { cb, height, fault } => {
+                Case::Input { cb, height, fault, range } => {
                     let mut world = small.clone();
                     let f = world.files.get_mut(height).unwrap();
                     let flen = f.len;
@@ -345,12 +352,15 @@ pub fn run() -> Report {
                             f.len = cut;
                         }
                     }
-                    let spec = RunSpec::new("bitcoin", cb);
+                    let spec = RunSpec::new("bitcoin", cb).range(range.0, range.1);
                     let r = match wk.world_run(&world, &spec) {
                         Ok(r) => r,
                         Err(m) => return acc.machinery(m),
                     };
                     acc.count(&format!("input:{}", fault.split('@').next().unwrap_or("")), 1);
+                    if range.0.is_some() || range.1.is_some() {
+                        acc.count("input-faults-under-a-range", 1);
+                    }
                     let mut bad = judge(&r, &reference[&(*cb, false)], "input-fault", false);
                     if bad.is_none() {
                         if r.code == Some(0) {
